@@ -51,7 +51,7 @@ Definition try_repair_replication (cfg : config) (h master : host) (mem : repair
               s <- replica_status 70258 h ;;
               match snd s, fst s with
               | Some _, _ => Ret None
-              | None, None => Panic 70266                (* GetExecutedGtidSet on a nil status *)
+              | None, None => Ret None                   (* no status any more (the channel is gone): an error, nothing is recorded *)
               | None, Some rs => t <- now_ 70264 ;; Ret (Some {| rp_last_attempt := t; rp_start_count := 0; rp_reset_count := 0; rp_last_gtid := rs_executed rs |})
               end
           end) ;;
@@ -85,7 +85,7 @@ Definition mark_replication_running (cfg : config) (h : host) (mem : repair_mem)
         s <- replica_status 70061 h ;;
         match snd s, fst s with
         | Some _, _ => Ret mem
-        | None, None => Panic 70066
+        | None, None => Ret mem
         | None, Some rs =>
             if slave_ahead (rs_executed rs) (rp_last_gtid st)
             then Ret {| rm_repair := assoc_del h (rm_repair mem); rm_stream_failed_at := rm_stream_failed_at mem |}
@@ -177,7 +177,7 @@ Definition repair_cascade_node (cfg : config) (env : repair_env) (topo : list (h
           my <- replica_status 1964 h ;;
           match snd my, fst my with
           | Some _, _ => Ret la
-          | None, None => Panic 1969                        (* GetExecutedGtidSet on a nil status *)
+          | None, None => Ret la                            (* no status any more: give up for this pass *)
           | None, Some myrs =>
               match assoc cand (re_state env) with
               | None => Panic 1971
